@@ -210,6 +210,9 @@ Proof.
   unfold buckets. rewrite dedup_In, filter_In, occ_pos_iff. tauto.
 Qed.
 
+Lemma buckets_meaning f ms k : In k (buckets f ms) <-> accept f k = true /\ In k (concat ms).
+Proof. rewrite buckets_iff. apply occ_pos_iff. Qed.
+
 Lemma buckets_length f ms counts :
   wf counts -> (forall k, get k counts = occ f k ms) -> length (buckets f ms) = length counts.
 Proof.
@@ -395,4 +398,19 @@ Proof.
   split; [vm_compute; reflexivity|]. split; [|apply Permutation_rev].
   intros d Hd. cbn in Hd.
   repeat (destruct Hd as [<-|Hd]; [repeat constructor; cbn; intuition discriminate|]). destruct Hd.
+Qed.
+
+(* two count maps with the same content in different internal order (Go map iteration order) *)
+Example ex_map_order :
+  let c1 := bump [98] (bump [97] (bump [98] [])) in
+  let c2 := bump [98] (bump [98] (bump [97] [])) in
+  wf c1 /\ wf c2 /\ c1 <> c2 /\ (forall k, get k c1 = get k c2) /\
+  StronglySorted e_lt (sort_entries c1) /\ sort_entries c1 = sort_entries c2.
+Proof.
+  cbn zeta.
+  assert (W1 : wf (bump [98] (bump [97] (bump [98] [])))) by (repeat apply wf_bump; apply wf_nil).
+  assert (W2 : wf (bump [98] (bump [98] (bump [97] [])))) by (repeat apply wf_bump; apply wf_nil).
+  split; [exact W1|]. split; [exact W2|]. split; [intros E; vm_compute in E; discriminate E|].
+  split; [intros k; rewrite !get_bump; cbn [get]; lia|].
+  split; [apply sort_sorted, W1|vm_compute; reflexivity].
 Qed.
